@@ -483,18 +483,27 @@ func (w *SimWriter) Write(p []byte) (int, error) {
 	w.mu.Lock()
 	w.seq++
 	seq := w.seq
+	gated, s := w.Gated, w.s
 	w.mu.Unlock()
-	if w.Gated && w.s != nil {
-		w.s.Enter(w.obj, KWrite, seq)
+	if gated && s != nil {
+		s.Enter(w.obj, KWrite, seq)
 	}
 	w.mu.Lock()
 	w.buf = append(w.buf, p...)
 	w.calls++
 	w.mu.Unlock()
-	if w.s != nil && w.Gated {
-		w.s.Log(Event{Obj: w.obj, Kind: KWrite, Seq: seq, N: len(p)})
+	if s != nil && gated {
+		s.Log(Event{Obj: w.obj, Kind: KWrite, Seq: seq, N: len(p)})
 	}
 	return len(p), nil
+}
+
+// Ungate makes later writes pass straight through (used once the bubble is left).
+func (w *SimWriter) Ungate() {
+	w.mu.Lock()
+	w.Gated = false
+	w.s = nil
+	w.mu.Unlock()
 }
 
 func (w *SimWriter) String() string {
